@@ -22,6 +22,11 @@ MISSED_FIRST = {
     "C17c_estimator_uses_noweights_builder_redrawing_duration": "caught by C11 at once; C17 itself only after the rule-call spy (duration asked once per node)",
     "C17d_percolate_rule_tested_both_directions": "C17 rules family had undirected networks only; 35% directed now",
     "C18c_predecessors_through_set": "cross-interpreter cases were too quiet; busy dense directed string-named SIS/SIRS cases added",
+    "C12f_kept_infectious_nodes_stop_transmitting": "the keyed contact rule was a pure function of (u,v); an age-dependent keyed rule (per steps already infectious) added",
+    "C15e_self_transition_skips_clock": "no chooser ever answered the current status; model `lazy` added, every model gets a law configuration, a bounded-horizon batch that never ends / exhausts memory is a C15 violation",
+    "C13f_attempt_at_time_zero_is_falsy": "no event ever fell on t = 0.0 exactly; a fifth of the C13 cases place tmin so that one attempt does",
+    "C19e_pair_based_masks_in_place": "the optional XY0/XX0 arrays were never passed; now given as full outer products",
+    "C19f_get_infected_nodes_mutates_callers_digraph": "the shared graph of C19 sequences was always undirected with gamma>0 mostly; 25% directed, 25% gamma=0 now",
     "X1a_surplus_rows_stripped_by_time": "C05 never had an event at tmin; a quarter of the cases now do (row 0 of the arrays only)",
     "X1b_influence_set_before_status_update": "influence sets never depended on statuses; `seir_rates` influence set depends on the node's new status",
 }
